@@ -228,6 +228,16 @@ func enginePurity(ctx *engineCtx) {
 				cm := &gtfsrt.FeedMessage{Header: &gtfsrt.FeedHeader{GtfsRealtimeVersion: ptr("2.0")}, Entity: []*gtfsrt.FeedEntity{{Id: ptr("clock"), TripUpdate: &gtfsrt.TripUpdate{Trip: td,
 					StopTimeUpdate: []*gtfsrt.TripUpdate_StopTimeUpdate{{StopId: ptr("L01N"), Departure: &gtfsrt.TripUpdate_StopTimeEvent{Time: ptr(soon)}}}}}}}
 				msgs = append(msgs, marshal(cm))
+			case cfg.kind == 1 && k+1 < nCalls && g.coin(0.3):
+				// two different messages about the same trip: first with its train id, then (the next call) assigned but without one -
+				// what the second says must not depend on the first having been parsed with the same extension object
+				mk := func(train *string) []byte {
+					td := &gtfsrt.TripDescriptor{TripId: ptr("061200_L..N"), RouteId: ptr("L"), StartDate: ptr("20231114")}
+					proto.SetExtension(td, gtfsrt.E_NyctTripDescriptor, &gtfsrt.NyctTripDescriptor{TrainId: train, IsAssigned: ptr(true), Direction: gtfsrt.NyctTripDescriptor_NORTH.Enum()})
+					return marshal(&gtfsrt.FeedMessage{Header: header(1700000000), Entity: []*gtfsrt.FeedEntity{{Id: ptr("t"), TripUpdate: &gtfsrt.TripUpdate{Trip: td}}}})
+				}
+				msgs = append(msgs, mk(ptr("0L 1234")), mk(nil))
+				k++
 			case k > 0 && g.coin(0.35):
 				msgs = append(msgs, append([]byte{}, msgs[g.r.Intn(len(msgs))]...)) // the same feed again
 			case g.coin(0.08):
